@@ -4,6 +4,7 @@
    positive densities and pressures.  rconsts g = the constants the constructor computes (C11_constants). *)
 From Coq Require Import Reals ZArith Bool.
 From CMI Require Import Common.Scalar Cxx.C05_Defs Cxx.C11_Defs Cxx.C11_Proofs Cxx.C11_Examples.
+From CMI Require Cxx.C11_Deriv.
 Local Open Scope R_scope.
 
 Theorem C11_constants : forall g, 1 < g -> mk_xconsts R RS g = rconsts g.
@@ -175,6 +176,18 @@ Proof.
   - apply ff_sign_side; assumption.
 Qed.
 Print Assumptions C11_pressure_function_monotone.
+
+(* fprimeb as coded IS the derivative of fb (so the Newton step is a Newton step), at every P > 0 except the kink Pstar = P_K,
+   with A, B, afac, rhoainv as solve() forms them *)
+Theorem C11_fprime_is_derivative : forall g rho P a p, 1 < g -> 0 < rho -> 0 < P -> 0 < a -> a * a = g * P / rho -> 0 < p -> p <> P ->
+  let c := rconsts g in
+  let A := tdgp1 R (cb R c) * (1 / rho) in
+  let B := gm1dgp1 R (cb R c) * P in
+  let afac := tdgm1 R (cb R c) * a in
+  let rhoainv := 1 / (rho * a) in
+  derivable_pt_lim (fun q => fb R RS c P A B (1 / P) afac q) p (fprimeb R RS c P A B (1 / P) rhoainv p).
+Proof. intros. apply C11_Deriv.fb_derivable_pt_lim; assumption. Qed.
+Print Assumptions C11_fprime_is_derivative.
 
 (* ---- (e) Brent's loop for an ARBITRARY function f (and whatever std::pow computes: RSpw pw is ROps 0 1 with pow := pw):
    every iterate stays in the initial bracket, the final pair (a,b) still has f(a) f(b) <= 0 and |f(b)| <= |f(a)|, and
